@@ -10,3 +10,14 @@ std::size_t use_c17() {
     d = {};                 // R17d positive: with the unit-assignment overload of the broken copy this is the unit vector {0}
     return (a * b) + (a * s) + c.size() + d.size();
 }
+
+// R17e positive: cancelling equal neighbours with an erase inside an index loop skips the element that moves into the freed slot
+#include <vector>
+std::size_t c17_erase_skip(std::vector<std::size_t> ones) {
+    for (std::size_t i = 0; i + 1 < ones.size(); i++) {
+        if (ones[i] == ones[i + 1]) {
+            ones.erase(ones.begin() + i, ones.begin() + i + 2);
+        }
+    }
+    return ones.size();
+}
